@@ -35,6 +35,7 @@ type World struct {
 	assumedUsed         map[string]bool
 	aliases             map[string]map[string]string // package path -> import alias -> import path
 	genericIdx          map[string]*ssa.Function
+	curProp             string          // the property whose check is being generated ("" in verify/dump mode: everything is checked)
 	insliceUsers        map[string]bool // packages whose contracts use the builtin inslice (append lemmas are emitted there)
 }
 
